@@ -163,6 +163,8 @@ func (c LitCase) violations() (v []string) {
 				add("modulus-0-or-1")
 			case !h.IsPrime64(q):
 				add("composite-" + name)
+			case m != 0 && q%m != 1 && c.ringType() == ring.ConjugateInvariant && q%(m/2) == 1:
+				add("1-mod-2N-but-not-1-mod-4N-" + name)
 			case m != 0 && q%m != 1:
 				add("not-ntt-friendly-" + name)
 			}
@@ -906,6 +908,12 @@ func smoke(c LitCase, b built, soft []string, rec *h.Rec) error {
 		if e != nil {
 			return knownOr(qualify(e, soft), rec)
 		}
+		// scale-independent: sk and pk encryption of a uniform polynomial within the fresh noise bound
+		asserted, e := rlweSmoke(p, c.Seed, rec)
+		rec.Classf("rlwe-smoke-asserted=%v", asserted)
+		if e != nil {
+			return knownOr(qualify(e, soft), rec)
+		}
 	default:
 		asserted, e := rlweSmoke(p, c.Seed, rec)
 		rec.Classf("rlwe-smoke-asserted=%v", asserted)
@@ -1113,6 +1121,11 @@ func genLiteral(t *rapid.T) LitCase {
 	muts := []string{"logN", "logNthRoot", "emptyQ", "noQ", "bothQ", "bothP"}
 	if !logMode {
 		muts = append(muts, "dupQ", "dupP", "sharedQP", "composite", "nonNTT", "zero", "one", "two", "bits62Q", "bits62P", "bits63P", "bits63Q", "bits64", "tinyAll")
+		if c.ringType() == ring.ConjugateInvariant {
+			// a standard-ring prime in a conjugate-invariant chain: 1 mod 2N but not 1 mod the root order 4N (listed
+			// several times: it is the only way to separate the two root orders)
+			muts = append(muts, "halfFriendlyQ", "halfFriendlyP", "halfFriendlyQ", "halfFriendlyP", "halfFriendlyAll")
+		}
 	} else {
 		muts = append(muts, "logSize", "logLong", "logSmall", "logNthRoot", "negLogNAndRoot")
 	}
@@ -1176,6 +1189,37 @@ func genLiteral(t *rapid.T) LitCase {
 	case "composite":
 		p := target()
 		*p = friendlyComposite(*p, m)
+	case "halfFriendlyQ", "halfFriendlyP", "halfFriendlyAll":
+		// prime = 2N+1 mod 4N of about the same size (what a chain built for the standard ring contains)
+		half := func(start uint64) uint64 {
+			if start < m {
+				start = m
+			}
+			for x := start - start%m + m/2 + 1; ; x += m {
+				if h.IsPrime64(x) && !used[x] {
+					used[x] = true
+					return x
+				}
+			}
+		}
+		switch c.Mut {
+		case "halfFriendlyQ":
+			i := rapid.IntRange(0, len(c.Q)-1).Draw(t, "hfIdx")
+			c.Q[i] = half(c.Q[i])
+		case "halfFriendlyP":
+			if len(c.P) == 0 {
+				c.P = h.GenPrimes(t, []int{50}, m, used, "hp")
+			}
+			i := rapid.IntRange(0, len(c.P)-1).Draw(t, "hfIdx")
+			c.P[i] = half(c.P[i])
+		default:
+			for i := range c.Q {
+				c.Q[i] = half(c.Q[i])
+			}
+			for i := range c.P {
+				c.P[i] = half(c.P[i])
+			}
+		}
 	case "nonNTT":
 		p := target()
 		*p = nonFriendlyPrime(*p, m)
